@@ -301,4 +301,6 @@ def run(ctx):
     ctx.explanation = ('C15: the four point-defect generators and the dispatcher are evaluated by the analyser on a model system (4 atoms, symbolic positions and property values, '
                        'with and without a pre-existing old_id); the site lookup is scripted (no / one / two atoms within tolerance). Result rows, old_id, defect-atom values, refusals and '
                        'the untouched input are compared with the documented behaviour for selection by index, negative index, Cartesian and box-relative position. Not decided: the numerical distance test.')
-    ctx.run_rules([generators, defaults, refusals, dispatch])
+    # the site lookup by position is the periodic-separation kernel: the candidate set it minimises over follows the three periodicity flags, one flag per direction
+    from .c02 import minfold, DV
+    ctx.run_rules([generators, defaults, refusals, dispatch, lambda c: minfold(c, DV, 'dvect_c', True)])
